@@ -15,6 +15,10 @@
 (*          ann \in {out, inout, outcaller, outcallee} carries ONLY a      *)
 (*          direction annotation so that the "out and inout parameters     *)
 (*          transfer fully unless caller-allocated" default is observable. *)
+(*          alias = TRUE: the value is declared with a typedef name of the  *)
+(*          scanned namespace (`typedef <spelling> FooAlias;  FooAlias f    *)
+(*          (void);`): the spelling then describes the typedef's TARGET and *)
+(*          the use site is the bare typedef name.                         *)
 (*   "arr": one callable (function / method / callback typedef) whose      *)
 (*          parameters are a sequence of roles                             *)
 (*            cb  callback typedef of the namespace                        *)
@@ -36,6 +40,13 @@
 (*   over observables only; silent (TRUE) where the statement is silent.   *)
 (***************************************************************************)
 EXTENDS Naturals, Integers, Sequences, FiniteSets, TLC
+
+\* what-if switches: deviations of EARLIER versions of the code, each repaired by a fix: commit
+\*   "D1" (before ab2ecd0) the qualifier of a void base was dropped from c:type
+\*   "D2" (before 9f7b6a8) a pointer to C99 bool stayed unresolved instead of gboolean
+\*   "D3" (before 8c1eceb) a constant cast to GType got the alias GObject.Type
+\* {} = the current code
+CONSTANT Dev
 
 Group(t, S) == [s \in S |-> t]
 HasC(q) == q \in {"c", "cv"}
@@ -129,20 +140,21 @@ Canon(b, d) ==
 \* Transformer.create_type_from_ctype_string (+ type resolution, + the _create_const side effect)
 ImplType(b, d, pos) ==
     LET c  == Canon(b, d)
-        \* `if canonical in ('_Bool', 'bool')`: compared WITH the pointers, so only depth 0 (deviation D2)
-        cb == IF c[2] = 0 /\ c[1] \in BoolWords THEN "gboolean" ELSE c[1]
+        \* `if base in ('_Bool', 'bool')` (what-if D2: `if canonical in ...`, compared WITH the pointers,
+        \* so only depth 0)
+        cb == IF c[1] \in BoolWords /\ (c[2] = 0 \/ "D2" \notin Dev) THEN "gboolean" ELSE c[1]
     IN  IF (pos = "return" /\ cb = "utf8" /\ c[2] = 1) \/ cb = "GStrv" THEN StrvArray
         ELSE IF cb \in DOMAIN TypeNames
-             \* _create_const calls _resolve_type_from_ctype on the fundamental type: the ctype GType also
-             \* matches the alias GObject.Type, and the writer prefers target_giname (deviation D3)
-             THEN Plain(IF pos = "constant" /\ TypeNames[cb] = "GType" THEN "GObject.Type" ELSE TypeNames[cb])
+             \* what-if D3: _create_const called _resolve_type_from_ctype on the fundamental type: the ctype
+             \* GType also matches the alias GObject.Type, and the writer prefers target_giname
+             THEN Plain(IF pos = "constant" /\ TypeNames[cb] = "GType" /\ "D3" \in Dev THEN "GObject.Type" ELSE TypeNames[cb])
         ELSE IF cb \in DOMAIN Containers THEN Containers[cb]
         ELSE IF cb \in DOMAIN NsTypes THEN Plain(NsTypes[cb])
         ELSE Plain("")                                      \* unresolved: <type c:type=".."/> without a name
 
-\* Transformer._create_complete_source_type: qualifiers are kept at every level, except that a
-\* void base returns 'void' before looking at them (deviation D1)
-ImplCQuals(c) == IF c.base = "void" THEN [c.quals EXCEPT ![1] = ""] ELSE c.quals
+\* Transformer._create_complete_source_type: qualifiers are kept at every level (what-if D1: a void
+\* base returned 'void' before looking at them)
+ImplCQuals(c) == IF c.base = "void" /\ "D1" \in Dev THEN [c.quals EXCEPT ![1] = ""] ELSE c.quals
 
 \* is_const as computed by _create_type_from_base: outermost node is a pointer whose pointee is const
 IsConstPtr(c) == c.depth >= 1 /\ HasC(c.quals[c.depth])
@@ -166,7 +178,29 @@ ImplDirection(c) == IF c.pos # "param" THEN "" ELSE
 ImplParamTransfer(c) == IF ImplDirection(c) = "in" THEN "none"
                         ELSE IF ImplCallerAlloc(c) THEN "none" ELSE "full"
 
+\* MainTransformer._get_transfer_default_return for a value whose type is an ast.Alias of the
+\* namespace: the use site is neither basic nor const, so the default is that of the alias TARGET
+\* (_get_transfer_default_returntype_basic(target.target): basic / const / gpointer / none -> none,
+\* utf8 -> full, anything else no default)
+ImplRetTransferAlias(c) ==
+    LET ty == ImplType(c.base, c.depth, "param") IN
+    IF IsConstPtr(c) THEN "none"
+    ELSE IF ty.tag = "type" /\ ty.name \in (BasicNames \cup {"gpointer", "none"}) THEN "none"
+    ELSE IF ty.tag = "type" /\ ty.name = "utf8" THEN "full"
+    ELSE ""
+
+ImplValAlias(c) ==
+    [present |-> TRUE, tag |-> "type", name |-> "Alias", elems |-> <<>>,
+     cbase |-> "FooAlias", cdepth |-> 0, cquals |-> <<"">>,
+     transfer |-> CASE c.pos = "param" -> "none"
+                    [] c.pos = "return" -> ImplRetTransferAlias(c)
+                    [] OTHER -> "",
+     nullable |-> FALSE,
+     direction |-> IF c.pos = "param" THEN "in" ELSE "",
+     callerAlloc |-> FALSE]
+
 ImplVal(c) ==
+    IF c.alias THEN ImplValAlias(c) ELSE
     LET ty == ImplType(c.base, c.depth, c.pos) IN
     [present |-> TRUE, tag |-> ty.tag, name |-> ty.name, elems |-> ty.elems,
      cbase |-> c.base, cdepth |-> c.depth, cquals |-> ImplCQuals(c),
@@ -206,23 +240,27 @@ ValNames == {"TypeName", "StrvArray", "Container", "CTypeKept", "InNone", "OutFu
 \* when each clause speaks
 ValAnte(cl, c, o) ==
     o.present /\
-    CASE cl = "TypeName"      -> Expect(c).tag = "type" /\ c.base \notin DOMAIN Containers
-      [] cl = "StrvArray"     -> Expect(c) = StrvArray
-      [] cl = "Container"     -> c.base \in DOMAIN Containers /\ Expect(c).tag # "silent"
+    \* (for a value declared through a typedef of the namespace the statement does not say which type
+    \*  element is written; it does speak about its ownership: a typedef of a const pointer is a const
+    \*  value, a typedef of char* a string, a typedef of int a basic type)
+    CASE cl = "TypeName"      -> ~c.alias /\ Expect(c).tag = "type" /\ c.base \notin DOMAIN Containers
+      [] cl = "StrvArray"     -> ~c.alias /\ Expect(c) = StrvArray
+      [] cl = "Container"     -> ~c.alias /\ c.base \in DOMAIN Containers /\ Expect(c).tag # "silent"
       [] cl = "CTypeKept"     -> TRUE
       [] cl = "InNone"        -> c.pos = "param" /\ o.direction = "in"
       [] cl = "OutFull"       -> c.pos = "param" /\ o.direction \in {"out", "inout"}
       [] cl = "RetBasicNone"  -> c.pos = "return" /\ c.depth = 0 /\ Expect(c).tag = "type" /\ Expect(c).name \in BasicNames
       [] cl = "RetConstNone"  -> c.pos = "return" /\ IsConstPtr(c)
       [] cl = "RetStringFull" -> c.pos = "return" /\ c.base \in {"char", "gchar"} /\ c.depth = 1 /\ ~HasC(c.quals[1])
-      [] cl = "PtrNullable"   -> c.pos \in {"param", "return"} /\ Expect(c) = Plain("gpointer")
+      [] cl = "PtrNullable"   -> ~c.alias /\ c.pos \in {"param", "return"} /\ Expect(c) = Plain("gpointer")
 
 ValCons(cl, c, o) ==
     CASE cl = "TypeName"      -> o.tag = "type" /\ o.name = Expect(c).name
       [] cl = "StrvArray"     -> o.tag = "array" /\ o.name = "" /\ o.elems = <<"utf8">>
       [] cl = "Container"     -> o.tag = Expect(c).tag /\ o.name = Expect(c).name
       \* "with the original C spelling kept as c:type"
-      [] cl = "CTypeKept"     -> o.cbase = c.base /\ o.cdepth = c.depth /\ o.cquals = c.quals
+      [] cl = "CTypeKept"     -> IF c.alias THEN o.cbase = "FooAlias" /\ o.cdepth = 0 /\ o.cquals = <<"">>
+                                 ELSE o.cbase = c.base /\ o.cdepth = c.depth /\ o.cquals = c.quals
       \* "in-parameters do not transfer ownership"
       [] cl = "InNone"        -> o.transfer = "none"
       \* "out and inout parameters transfer fully unless caller-allocated"
@@ -237,15 +275,14 @@ ValCons(cl, c, o) ==
 
 ValHolds(cl, c, o) == ValAnte(cl, c, o) => ValCons(cl, c, o)
 
-\* Deviations of the implementation layer from the property layer that TLC found and that were
-\* triaged as defects of the code w.r.t. the statement (reported; see known_findings.json):
-\*   D1  `const void *` / `volatile void *`: the qualifier of a void base is dropped from c:type
-\*   D2  `bool *` / `_Bool *` (any pointer to C99 bool) stays unresolved instead of gboolean
-\*   D3  a constant cast to GType gets the alias GObject.Type instead of the fundamental GType
+\* Deviations that TLC found on the first version of this module and that were triaged as defects of
+\* the code w.r.t. the statement; all three are repaired (see known_findings.json) and live on as the
+\* what-if switches D1-D3.  ValTriaged names the (clause, case) pairs each switch must break.
 ValTriaged(cl, c) ==
-    \/ cl = "CTypeKept" /\ c.base = "void" /\ c.quals[1] # ""
-    \/ cl = "TypeName" /\ c.base \in BoolWords /\ c.depth >= 1
-    \/ cl = "TypeName" /\ c.base = "GType" /\ c.pos = "constant"
+    ~c.alias /\
+    (\/ cl = "CTypeKept" /\ c.base = "void" /\ c.quals[1] # "" /\ "D1" \in Dev
+     \/ cl = "TypeName" /\ c.base \in BoolWords /\ c.depth >= 1 /\ "D2" \in Dev
+     \/ cl = "TypeName" /\ c.base = "GType" /\ c.pos = "constant" /\ "D3" \in Dev)
 
 -----------------------------------------------------------------------------
 (*              IMPLEMENTATION-SHAPED LAYER  --  callables                 *)
